@@ -1298,3 +1298,121 @@ Proof.
   destruct (coo_reduce_calc Z (op_z m) (ufunc_cast m) nax x) as [k|e]; cbn [bind]; [|reflexivity].
   apply (tail_z_eq m Hm).
 Qed.
+
+(* ------------------------------------------------------------------ property-level statements at Z *)
+Theorem reduce_den_z_proof m : valid_code m -> forall (x : coo Z) ax kd,
+  COOP.canonical Z x -> shape_ok (c_shape x) ->
+  match reduce_coo_z m ax kd x with
+  | Ok r =>
+    exists osh g,
+      np_reduce Z (op_z m) (ufunc_cast m) (ufunc_ident m) ax kd (c_shape x) (den x) = Ok (osh, g) /\
+      rres_shape r = osh /\ (forall oix, in_range osh oix -> g oix = Ok (rres_den r oix)) /\
+      rres_wf Z Z.eqb r
+  | Raise e =>
+    e = ValueError /\
+    (np_reduce Z (op_z m) (ufunc_cast m) (ufunc_ident m) ax kd (c_shape x) (den x) = Raise ValueError
+     \/ adm_z m (c_fill x) = false)
+  end.
+Proof.
+  intros Hm x ax kd Hc Hok. rewrite (reduce_coo_z_eq m Hm).
+  apply (reduce_den_proof Z Z.eqb Z.eqb_eq (op_z m) (op_z_assoc m Hm) (op_z_comm m Hm) (ufunc_cast m)
+           (cast_z_op m Hm) (sup_z m) (ufunc_ident m)); try assumption.
+  - intros s f. apply sup_z_one.
+  - intros s f k. apply sup_z_succ.
+Qed.
+
+(* the run-length code decodes to the list it encodes, and its runs are maximal *)
+Lemma runlens_decodes gs :
+  flat_map (fun p => repeat (fst p) (Z.to_nat (snd p))) (runlens gs) = gs.
+Proof.
+  induction gs as [|g r IH]; [reflexivity|]. pose proof (runlens_pos r) as Hpos. cbn [runlens].
+  destruct (runlens r) as [|[g' c] rest] eqn:E.
+  - cbn in IH. subst r. reflexivity.
+  - cbn [map snd] in Hpos. assert (Hc : 0 < c) by (inversion Hpos; assumption). clear Hpos.
+    cbn [flat_map fst snd] in IH.
+    destruct (Z.eqb_spec g g') as [->|Hne]; cbn [flat_map fst snd].
+    + replace (Z.to_nat (c + 1)) with (S (Z.to_nat c)) by lia. cbn [repeat app]. f_equal. exact IH.
+    + change (Z.to_nat 1) with 1%nat. cbn [repeat app]. f_equal. exact IH.
+Qed.
+
+Lemma runlens_maximal gs : forall i, (S i < length (runlens gs))%nat ->
+  fst (nth i (runlens gs) (0, 0)) <> fst (nth (S i) (runlens gs) (0, 0)).
+Proof.
+  induction gs as [|g r IH]; intros i Hi; [cbn in Hi; lia|].
+  cbn [runlens] in *. destruct (runlens r) as [|[g' c] rest] eqn:E; [cbn in Hi; lia|].
+  destruct (Z.eqb_spec g g') as [->|Hne].
+  - destruct i as [|i]; [apply (IH 0%nat); cbn in *; lia|]. apply (IH (S i)). cbn in *. lia.
+  - destruct i as [|i]; [cbn; assumption|]. apply (IH i). cbn in *. lia.
+Qed.
+
+(* ------------------------------------------------------------------ examples (non-vacuity) *)
+Definition ex_x : coo Z :=
+  mkCOO [2; 3; 2] [[0; 0; 1]; [0; 2; 0]; [1; 0; 0]; [1; 0; 1]; [1; 1; 0]; [1; 1; 1]; [1; 2; 0]; [1; 2; 1]]
+        [5; -2; 1; 2; 3; 4; 7; 6] 3.
+
+Lemma ex_x_canonical : COOP.canonical Z ex_x /\ shape_ok (c_shape ex_x).
+Proof.
+  split; [apply canonicalb_spec; vm_compute; reflexivity|]. repeat constructor; cbn; lia.
+Qed.
+
+(* sum over axes (-1, 0) given in that order, fill 3: an absent, a deficient and a complete+deficient row *)
+Example ex_sum_proof :
+  reduce_coo_z 0 (AxTuple [-1; 0]) false ex_x
+  = Ok (RArr (mkCOO [3] [[0]; [1]; [2]] [11; 13; 14] 12)).
+Proof. vm_compute. reflexivity. Qed.
+
+Example ex_prod_proof :
+  reduce_coo_z 1 (AxInt 1) true ex_x
+  = Ok (RArr (mkCOO [2; 1; 2] [[0; 0; 0]; [0; 0; 1]; [1; 0; 0]; [1; 0; 1]] [-18; 45; 21; 48] 27)).
+Proof. vm_compute. reflexivity. Qed.
+
+Example ex_min_proof :
+  reduce_coo_z 2 AxNone false ex_x = Ok (RScalar (-2)).
+Proof. vm_compute. reflexivity. Qed.
+
+Example ex_max_proof :
+  reduce_coo_z 3 (AxTuple [0; 2]) false ex_x = Ok (RArr (mkCOO [3] [[0]; [1]; [2]] [5; 4; 7] 3)).
+Proof. vm_compute. reflexivity. Qed.
+
+(* an inadmissible reduction raises ValueError: logical_or with fill 3 *)
+Example ex_inadmissible_proof :
+  reduce_coo_z 4 AxNone false ex_x = Raise ValueError.
+Proof. vm_compute. reflexivity. Qed.
+
+(* nothing to reduce: sum gives the identity 0, min raises as NumPy does *)
+Definition ex_empty : coo Z := mkCOO [3; 0] [] [] 3.
+Example ex_zero_extent_proof :
+  reduce_coo_z 0 (AxInt 1) false ex_empty = Ok (RArr (mkCOO [3] [] [] 0))
+  /\ reduce_coo_z 2 (AxInt (-1)) false ex_empty = Raise ValueError
+  /\ reduce_coo_z 5 (AxInt 1) false (mkCOO [3; 0] [] [] 1) = Ok (RArr (mkCOO [3] [] [] 1)).
+Proof. vm_compute. repeat split; reflexivity. Qed.
+
+Example ex_kernel_proof :
+  calc_counts_invidx [0; 0; 2; 2; 2; 5] = ([0; 2; 5], [2; 3; 1])
+  /\ grouped_reduce Z Z.add (fun v => v) 0 [1; 2; 3; 4; 5; 6] [0; 0; 2; 2; 2; 5] = Ok ([3; 12; 6], [0; 2; 5], [2; 3; 1]).
+Proof. vm_compute. split; reflexivity. Qed.
+
+(* the row theorem on a concrete deficient row: stored [5; -2], fill 3, 6 cells *)
+Example ex_row_proof :
+  np_fold Z Z.add (fun v => v) (Some 0) [3; 5; 3; 3; -2; 3]
+  = Ok (fix_cell Z Z.add (fun v => v) (Some Z.mul) 3 6 (fold1 Z Z.add 0 [5; -2]) 2).
+Proof. vm_compute. reflexivity. Qed.
+
+(* ------------------------------------------------------------------ GCXS: what the code does outside its domain *)
+Definition ex_g : gcxs Z := mkGCXS [2; 2] [0] [1; 2] [0; 1] [0; 1; 2] 0.
+
+(* gcxs_axes_nonempty: `axis[0]` on the empty tuple raises IndexError where NumPy returns the array *)
+Lemma gcxs_axes_nonempty_refuted_proof :
+  exists (g : gcxs Z) (ax : axis_arg),
+    gcxs_wfb g = true /\
+    gcxs_reduce_z 0 ax false g = Raise IndexError /\
+    exists r, np_reduce_dense Z (op_z 0) (ufunc_cast 0) (ufunc_ident 0) ax false (todense (gcxs_to_coo Z g)) 0 = Ok r.
+Proof. exists ex_g, (AxTuple []). vm_compute. repeat split; eauto. Qed.
+
+(* gcxs_axes_distinct: a repeated axis is silently accepted where NumPy raises ValueError *)
+Lemma gcxs_axes_distinct_refuted_proof :
+  exists (g : gcxs Z) (ax : axis_arg) r,
+    gcxs_wfb g = true /\
+    gcxs_reduce_z 0 ax false g = Ok r /\
+    np_reduce_dense Z (op_z 0) (ufunc_cast 0) (ufunc_ident 0) ax false (todense (gcxs_to_coo Z g)) 0 = Raise ValueError.
+Proof. exists ex_g, (AxTuple [0; 0]). eexists. vm_compute. repeat split; reflexivity. Qed.
